@@ -26,6 +26,8 @@ for n in sorted((d for d in os.listdir(os.path.join(HERE, "seeded")) if os.path.
             bucket = f"`{mm.group(1)}`" if mm else ""
     if "obsolete_after" in m:
         res = [f"obsolete after {m['obsolete_after']}"]
+    if "out_of_domain" in m:
+        res = [r.replace("MISSED", "not detected (outside the checked domain, see text)") for r in res]
     clean = lambda s: str(s).replace("|", "/").replace("\n", " ")
     rows.append(f"| {n} | {clean(m.get('title', ''))[:110]} | {clean(m.get('needs_to_manifest', ''))[:150]} | {', '.join(res)} | {bucket} |")
 p = os.path.join(HERE, "DESIGN.md")
